@@ -123,7 +123,7 @@ func (e *env) runSpanTable(ts TableSpec, idx int) {
 			} else {
 				c.Outcome("span:agree-untruncated")
 			}
-			if n++; (idx*31+n)%7001 == 0 {
+			if n++; e.sample && n == 41 {
 				c.Sample(map[string]any{"case": cs.String(), "rangedels": fmt.Sprint(rd), "rangekeys": fmt.Sprint(rk)})
 			}
 		}
